@@ -7,6 +7,7 @@ import L21.Driver.GdsIO
 import L21.Driver.LefRawIO
 import L21.Driver.RawProtoIO
 import L21.Driver.RawGdsIO
+import L21.Driver.PlaceIO
 /-
 Line-protocol operations: `<op> <sexpr>*` ↦ result line.
 -/
@@ -137,6 +138,8 @@ def dispatch (op : String) (args : List Sexp) : String :=
   | "gds.read" => opGdsRead args
   | "gds.c03" => opGdsRead (args.take 1)
   | "lefraw.import" => opLefRawImport args
+  | "place" => opPlace args
+  | "place.array" => opPlaceArray args
   | "rawgds.export" => opRawGdsExport args
   | "gdsraw.import" => opGdsRawImport args
   | "rawproto.export" => opRawProtoExport args
